@@ -156,7 +156,9 @@ func (c *config) update(changes *config2.StringMap) error {
 			}
 
 		default:
-			return c.setCostValue(key, value)
+			if err := c.setCostValue(key, value); err != nil {
+				return err
+			}
 		}
 	}
 	return nil
